@@ -6,7 +6,7 @@ ID = 'ZZ'
 LEVEL = 'exploration'
 RULE = 'self-test of the runner'
 ASSUMPTIONS = []
-CASE_TIMEOUT = 5
+CASE_TIMEOUT = 1
 
 
 def shards(tier, seed):
@@ -14,11 +14,25 @@ def shards(tier, seed):
 
 
 def cases(shard):
+    if shard.get('stuck'):
+        yield dict(stuck=True)
+        return
     for k in range(3):
         yield dict(n=shard['n'], k=k)
 
 
 def run_case(case, acc):
     acc.ev(case, nontrivial=True)
+    if case.get('stuck'):
+        # burn CPU with signals blocked: like a loop inside a C library the
+        # in-process timer cannot interrupt
+        signal.pthread_sigmask(signal.SIG_BLOCK,
+                               {signal.SIGPROF, signal.SIGALRM})
+        while True:
+            pass
     if case == dict(n=4, k=1):
         os.kill(os.getpid(), signal.SIGSEGV)   # the interpreter goes down
+
+
+def stuck_shards():
+    return [dict(stuck=True)]
